@@ -100,7 +100,7 @@ class C07(Check):
 
         @st.composite
         def step(draw):
-            m = draw(st.sampled_from(names + ['echo', 'echo', 'ret']))
+            m = draw(st.sampled_from(names + ['echo', 'echo', 'ret', 'rpc_err', 'rpc_err2']))
             args, kwargs = draw(st.sampled_from(METHODS[m]))
             if draw(st.integers(0, 2)) == 0:
                 args = [draw(s_val) for _ in args]
@@ -113,7 +113,7 @@ class C07(Check):
             st.builds(lambda n, c: {'kind': 'random', 'length': n, 'chars': c}, st.sampled_from([8, 16, 32]), st.sampled_from(['0123456789abcdef', 'abcdefghijklmnopqrstuvwxyz'])),
             st.just({'kind': 'uuid'}),
         )
-        s_idgen = st.one_of(s_idgen, s_idgen, st.builds(lambda a: {'kind': 'sequential', 'start': a, 'step': 1}, st.sampled_from([1, 0])))
+        s_idgen = jg.weighted(s_idgen, s_idgen, st.builds(lambda a: {'kind': 'sequential', 'start': a, 'step': 1}, st.sampled_from([1, 0])))
         return st.builds(
             lambda c, d, s, g, n1, n2, plan, beh, seed, split: {'client': c, 'dispatcher': d, 'strict': s, 'id_gen': g, 'notation': n1, 'other': n2,
                                                                   'plan': plan, 'behaviours': beh, 'seed': seed, 'split': split, 'batch_strict': seed % 3 != 0,
